@@ -89,28 +89,37 @@ def wO (c : Cfg) (st : StB) (j : Nat) : Nat :=
   (if st.didSd j = true then wBc (st.bc j) else 3) +
   (if st.didSd (c.parent j) = true then 0 else 2) + (if st.hph j = .hactive then 1 else 0)
 
-def mu (c : Cfg) (st : StB) : Nat := sumR c.n (wD st) + sumR c.n (wO c st)
+/-- the variant without the share of the outside world (`extCancel`) -/
+def mu0 (c : Cfg) (st : StB) : Nat := sumR c.n (wD st) + sumR c.n (wO c st)
 
-theorem mu_init (c : Cfg) : mu c StB.init ≤ 16 * c.n + 16 := by
+/-- the cancellation from outside (`extCancel`) can still come: the top-level task is unfinished and `cancel()` has not
+    been called on it.  It happens at most once: `creq 0` stands until the top-level run is over, and then the task is
+    finished for good. -/
+def wX (a : StA) : Nat :=
+  if a.creq 0 = false ∧ (a.ph 0 = .idle ∨ a.ph 0 = .queued ∨ a.ph 0 = .running) then 1 else 0
+
+def mu (c : Cfg) (st : StB) : Nat := mu0 c st + wX st.a
+
+theorem mu0_init (c : Cfg) : mu0 c StB.init ≤ 15 * c.n := by
   have h1 : sumR c.n (wD StB.init) ≤ 2 * c.n := sumR_bound 2 (fun j _ => by simp [wD, StB.init, StA.init])
   have h2 : sumR c.n (wO c StB.init) ≤ 13 * c.n :=
     sumR_bound 13 (fun j _ => by simp [wO, StB.init, StA.init, wPh, wPc])
-  unfold mu; omega
+  unfold mu0; omega
 
 theorem mu_lt_of {c : Cfg} {st st' : StB} (hd : ∀ j, j < c.n → wD st' j ≤ wD st j)
     (ho : ∀ j, j < c.n → wO c st' j ≤ wO c st j) (k : Nat) (hk : k < c.n) (hlt : wO c st' k < wO c st k) :
-    mu c st' < mu c st := by
+    mu0 c st' < mu0 c st := by
   have h1 := sumR_le hd
   have h2 := sumR_add_le 1 ho k hk (by omega)
-  unfold mu; omega
+  unfold mu0; omega
 
 /-! ### every event other than `tick` makes the variant decrease -/
 
 theorem mu_le_of {c : Cfg} {st st' : StB} (hd : ∀ j, j < c.n → wD st' j ≤ wD st j)
-    (ho : ∀ j, j < c.n → wO c st' j ≤ wO c st j) : mu c st' ≤ mu c st := by
+    (ho : ∀ j, j < c.n → wO c st' j ≤ wO c st j) : mu0 c st' ≤ mu0 c st := by
   have h1 := sumR_le hd
   have h2 := sumR_le ho
-  unfold mu; omega
+  unfold mu0; omega
 
 /-- unfold the weights, then case analysis and arithmetic -/
 macro "w_close" : tactic =>
@@ -119,7 +128,7 @@ macro "w_close" : tactic =>
     grind [wPh, wPc, wBc]))
 
 theorem mu_bodyEnd (c : Cfg) (w : CoreB.WF c) (st st' : StB) (j : Nat) (ok : Bool)
-    (hA : InvA c st.a) (hinv : InvB c st) (h : stepB c st (.bodyEnd j ok) = some st') : mu c st' < mu c st := by
+    (hA : InvA c st.a) (hinv : InvB c st) (h : stepB c st (.bodyEnd j ok) = some st') : mu0 c st' < mu0 c st := by
   simp only [stepB] at h
   split at h
   · cases h
@@ -133,7 +142,7 @@ theorem mu_bodyEnd (c : Cfg) (w : CoreB.WF c) (st st' : StB) (j : Nat) (ok : Boo
     · simp only [wO, hph, hrx]; w_close
 
 theorem mu_cancelAck (c : Cfg) (w : CoreB.WF c) (st st' : StB) (j : Nat)
-    (hA : InvA c st.a) (hinv : InvB c st) (h : stepB c st (.cancelAck j) = some st') : mu c st' < mu c st := by
+    (hA : InvA c st.a) (hinv : InvB c st) (h : stepB c st (.cancelAck j) = some st') : mu0 c st' < mu0 c st := by
   simp only [stepB] at h
   split at h
   · cases h
@@ -147,7 +156,7 @@ theorem mu_cancelAck (c : Cfg) (w : CoreB.WF c) (st st' : StB) (j : Nat)
     · simp only [wO, hph, hrx]; w_close
 
 theorem mu_runBegin (c : Cfg) (w : CoreB.WF c) (st st' : StB)
-    (hA : InvA c st.a) (hinv : InvB c st) (h : stepB c st .runBegin = some st') : mu c st' < mu c st := by
+    (hA : InvA c st.a) (hinv : InvB c st) (h : stepB c st .runBegin = some st') : mu0 c st' < mu0 c st := by
   simp only [stepB] at h
   split at h
   · cases h
@@ -169,7 +178,7 @@ theorem mu_runBegin (c : Cfg) (w : CoreB.WF c) (st st' : StB)
       · simp only [wO, beginB, he, Bool.false_eq_true, if_false, hph, hrx]; w_close
 
 theorem mu_grant (c : Cfg) (w : CoreB.WF c) (st st' : StB) (j : Nat)
-    (hA : InvA c st.a) (hinv : InvB c st) (h : stepB c st (.grant j) = some st') : mu c st' < mu c st := by
+    (hA : InvA c st.a) (hinv : InvB c st) (h : stepB c st (.grant j) = some st') : mu0 c st' < mu0 c st := by
   simp only [stepB] at h
   split at h
   · cases h
@@ -201,11 +210,11 @@ theorem mu_grant (c : Cfg) (w : CoreB.WF c) (st st' : StB) (j : Nat)
       · simp only [wO, beginB, he, Bool.false_eq_true, if_false, hph, hrx]; w_close
 
 theorem mu_cancelArrive (c : Cfg) (w : CoreB.WF c) (st st' : StB) (s : Nat)
-    (hA : InvA c st.a) (hinv : InvB c st) (h : stepB c st (.cancelArrive s) = some st') : mu c st' < mu c st := by
+    (hA : InvA c st.a) (hinv : InvB c st) (h : stepB c st (.cancelArrive s) = some st') : mu0 c st' < mu0 c st := by
   simp only [stepB] at h
   split at h
   · rename_i hg
-    obtain ⟨hs0, hsn, hss, hsr, hsc, hsa⟩ := hg
+    obtain ⟨hsn, hss, hsr, hsc, hsa⟩ := hg
     have hb1 := hinv.bcInlineWait s
     have hb2 := hinv.bcNone s
     split at h
@@ -245,7 +254,7 @@ theorem mu_cancelArrive (c : Cfg) (w : CoreB.WF c) (st st' : StB) (s : Nat)
   · cases h
 
 theorem mu_waitReturn (c : Cfg) (w : CoreB.WF c) (st st' : StB) (s : Nat)
-    (hA : InvA c st.a) (hinv : InvB c st) (h : stepB c st (.waitReturn s) = some st') : mu c st' < mu c st := by
+    (hA : InvA c st.a) (hinv : InvB c st) (h : stepB c st (.waitReturn s) = some st') : mu0 c st' < mu0 c st := by
   simp only [stepB] at h
   split at h
   · rename_i hg
@@ -265,11 +274,11 @@ theorem mu_waitReturn (c : Cfg) (w : CoreB.WF c) (st st' : StB) (s : Nat)
         apply sumR_le_add 1 s
         · intro j hj hjs; simp only [wO, hph, hrx]; w_close
         · simp only [wO, hph, hrx]; w_close
-      unfold mu; omega
+      unfold mu0; omega
   · cases h
 
 theorem mu_react (c : Cfg) (w : CoreB.WF c) (st st' : StB) (s : Nat)
-    (hA : InvA c st.a) (hinv : InvB c st) (h : stepB c st (.react s) = some st') : mu c st' < mu c st := by
+    (hA : InvA c st.a) (hinv : InvB c st) (h : stepB c st (.react s) = some st') : mu0 c st' < mu0 c st := by
   simp only [stepB] at h
   split at h
   · rename_i D hpcs hrxs
@@ -321,7 +330,7 @@ theorem mu_react (c : Cfg) (w : CoreB.WF c) (st st' : StB) (s : Nat)
   · cases h
 
 theorem mu_orchFail (c : Cfg) (w : CoreB.WF c) (st st' : StB) (s : Nat)
-    (hA : InvA c st.a) (hinv : InvB c st) (h : stepB c st (.orchFail s) = some st') : mu c st' < mu c st := by
+    (hA : InvA c st.a) (hinv : InvB c st) (h : stepB c st (.orchFail s) = some st') : mu0 c st' < mu0 c st := by
   simp only [stepB] at h
   split at h
   · rename_i D hpcs hrxs
@@ -340,7 +349,7 @@ theorem mu_orchFail (c : Cfg) (w : CoreB.WF c) (st st' : StB) (s : Nat)
   · cases h
 
 theorem mu_timeoutFire (c : Cfg) (w : CoreB.WF c) (st st' : StB) (s : Nat)
-    (hA : InvA c st.a) (hinv : InvB c st) (h : stepB c st (.timeoutFire s) = some st') : mu c st' < mu c st := by
+    (hA : InvA c st.a) (hinv : InvB c st) (h : stepB c st (.timeoutFire s) = some st') : mu0 c st' < mu0 c st := by
   simp only [stepB] at h
   split at h
   · rename_i hg
@@ -360,7 +369,7 @@ theorem mu_timeoutFire (c : Cfg) (w : CoreB.WF c) (st st' : StB) (s : Nat)
 theorem wPh_finPh (r : Option Res) : wPh (finPh r) = 0 := by cases r <;> rfl
 
 theorem mu_finishRun (c : Cfg) (st st' : StB) (s : Nat) (x : Exit) (pick : Nat)
-    (h : finishRun c st s x pick = some st') : mu c st' < mu c st := by
+    (h : finishRun c st s x pick = some st') : mu0 c st' < mu0 c st := by
   unfold finishRun at h
   split at h
   · cases h
@@ -378,7 +387,7 @@ theorem mu_finishRun (c : Cfg) (st st' : StB) (s : Nat) (x : Exit) (pick : Nat)
       · simp only [wO, hph, hrx]; w_close
 
 theorem mu_tidyReturn (c : Cfg) (w : CoreB.WF c) (st st' : StB) (s pick : Nat)
-    (hA : InvA c st.a) (hinv : InvB c st) (h : stepB c st (.tidyReturn s pick) = some st') : mu c st' < mu c st := by
+    (hA : InvA c st.a) (hinv : InvB c st) (h : stepB c st (.tidyReturn s pick) = some st') : mu0 c st' < mu0 c st := by
   simp only [stepB] at h
   split at h
   · rename_i x hpcs
@@ -399,7 +408,7 @@ theorem mu_tidyReturn (c : Cfg) (w : CoreB.WF c) (st st' : StB) (s pick : Nat)
   · cases h
 
 theorem mu_hStep (c : Cfg) (w : CoreB.WF c) (st st' : StB) (j : Nat)
-    (hA : InvA c st.a) (hinv : InvB c st) (h : stepB c st (.hStep j) = some st') : mu c st' < mu c st := by
+    (hA : InvA c st.a) (hinv : InvB c st) (h : stepB c st (.hStep j) = some st') : mu0 c st' < mu0 c st := by
   simp only [stepB] at h
   split at h
   · rename_i hg
@@ -421,7 +430,7 @@ theorem mu_hStep (c : Cfg) (w : CoreB.WF c) (st st' : StB) (j : Nat)
   · cases h
 
 theorem mu_hEnd (c : Cfg) (w : CoreB.WF c) (st st' : StB) (j : Nat)
-    (hA : InvA c st.a) (hinv : InvB c st) (h : stepB c st (.hEnd j) = some st') : mu c st' < mu c st := by
+    (hA : InvA c st.a) (hinv : InvB c st) (h : stepB c st (.hEnd j) = some st') : mu0 c st' < mu0 c st := by
   simp only [stepB] at h
   split at h
   · rename_i hg
@@ -435,7 +444,7 @@ theorem mu_hEnd (c : Cfg) (w : CoreB.WF c) (st st' : StB) (j : Nat)
   · cases h
 
 theorem mu_hCancelAck (c : Cfg) (w : CoreB.WF c) (st st' : StB) (j : Nat)
-    (hA : InvA c st.a) (hinv : InvB c st) (h : stepB c st (.hCancelAck j) = some st') : mu c st' < mu c st := by
+    (hA : InvA c st.a) (hinv : InvB c st) (h : stepB c st (.hCancelAck j) = some st') : mu0 c st' < mu0 c st := by
   simp only [stepB] at h
   split at h
   · rename_i hg
@@ -449,7 +458,7 @@ theorem mu_hCancelAck (c : Cfg) (w : CoreB.WF c) (st st' : StB) (j : Nat)
   · cases h
 
 theorem mu_hCancelArrive (c : Cfg) (w : CoreB.WF c) (st st' : StB) (s : Nat)
-    (hA : InvA c st.a) (hinv : InvB c st) (h : stepB c st (.hCancelArrive s) = some st') : mu c st' < mu c st := by
+    (hA : InvA c st.a) (hinv : InvB c st) (h : stepB c st (.hCancelArrive s) = some st') : mu0 c st' < mu0 c st := by
   simp only [stepB] at h
   split at h
   · rename_i hg
@@ -473,7 +482,7 @@ theorem mu_hCancelArrive (c : Cfg) (w : CoreB.WF c) (st st' : StB) (s : Nat)
   · cases h
 
 theorem mu_sdWaitReturn (c : Cfg) (w : CoreB.WF c) (st st' : StB) (s pick : Nat)
-    (hA : InvA c st.a) (hinv : InvB c st) (h : stepB c st (.sdWaitReturn s pick) = some st') : mu c st' < mu c st := by
+    (hA : InvA c st.a) (hinv : InvB c st) (h : stepB c st (.sdWaitReturn s pick) = some st') : mu0 c st' < mu0 c st := by
   simp only [stepB] at h
   split at h
   · rename_i hg
@@ -499,7 +508,7 @@ theorem mu_sdWaitReturn (c : Cfg) (w : CoreB.WF c) (st st' : StB) (s pick : Nat)
   · cases h
 
 theorem mu_sdTidyReturn (c : Cfg) (w : CoreB.WF c) (st st' : StB) (s pick : Nat)
-    (hA : InvA c st.a) (hinv : InvB c st) (h : stepB c st (.sdTidyReturn s pick) = some st') : mu c st' < mu c st := by
+    (hA : InvA c st.a) (hinv : InvB c st) (h : stepB c st (.sdTidyReturn s pick) = some st') : mu0 c st' < mu0 c st := by
   simp only [stepB] at h
   split at h
   · rename_i hg
@@ -525,7 +534,7 @@ theorem mu_sdTidyReturn (c : Cfg) (w : CoreB.WF c) (st st' : StB) (s pick : Nat)
   · cases h
 
 theorem mu_sdTimeoutFire (c : Cfg) (w : CoreB.WF c) (st st' : StB) (s : Nat)
-    (hA : InvA c st.a) (hinv : InvB c st) (h : stepB c st (.sdTimeoutFire s) = some st') : mu c st' < mu c st := by
+    (hA : InvA c st.a) (hinv : InvB c st) (h : stepB c st (.sdTimeoutFire s) = some st') : mu0 c st' < mu0 c st := by
   simp only [stepB] at h
   split at h
   · rename_i hg
@@ -545,7 +554,7 @@ theorem mu_sdTimeoutFire (c : Cfg) (w : CoreB.WF c) (st st' : StB) (s : Nat)
        · w_close)
   · cases h
 
-theorem mu_tick (c : Cfg) (st st' : StB) (d : Nat) (h : stepB c st (.tick d) = some st') : mu c st' ≤ mu c st := by
+theorem mu0_tick (c : Cfg) (st st' : StB) (d : Nat) (h : stepB c st (.tick d) = some st') : mu0 c st' ≤ mu0 c st := by
   simp only [stepB] at h
   split at h
   · split at h
@@ -558,30 +567,85 @@ theorem mu_tick (c : Cfg) (st st' : StB) (d : Nat) (h : stepB c st (.tick d) = s
       · intro k hk; simp only [wO, hph, hrx]; exact Nat.le_refl _
   · cases h
 
+/-- `extCancel` changes nothing the weights of `mu0` look at -/
+theorem mu0_extCancel (c : Cfg) (st st' : StB) (h : stepB c st .extCancel = some st') : mu0 c st' ≤ mu0 c st := by
+  simp only [stepB] at h
+  split at h
+  · cases h
+  · rename_i a' ha
+    cases h
+    obtain ⟨_, rfl⟩ := stepA_extCancel ha
+    apply mu_le_of
+    · intro k hk; simp [wD]
+    · intro k hk; simp only [wO]; exact Nat.le_refl _
+
+def isExt : EvB → Bool
+  | .extCancel => true
+  | _ => false
+
+/-- `mu0` never increases, and decreases at every event other than `tick` and `extCancel` -/
+theorem mu0_step (c : Cfg) (hwf : c.wf = true) (st st' : StB) (e : EvB)
+    (hA : InvA c st.a) (hinv : InvB c st) (h : stepB c st e = some st') :
+    mu0 c st' + (if isTick e = true ∨ isExt e = true then 0 else 1) ≤ mu0 c st := by
+  have w := wf_of c hwf
+  cases e with
+  | runBegin => have := mu_runBegin c w st st' hA hinv h; simp only [isTick, isExt]; grind
+  | grant j => have := mu_grant c w st st' j hA hinv h; simp only [isTick, isExt]; grind
+  | bodyEnd j ok => have := mu_bodyEnd c w st st' j ok hA hinv h; simp only [isTick, isExt]; grind
+  | cancelAck j => have := mu_cancelAck c w st st' j hA hinv h; simp only [isTick, isExt]; grind
+  | cancelArrive s => have := mu_cancelArrive c w st st' s hA hinv h; simp only [isTick, isExt]; grind
+  | waitReturn s => have := mu_waitReturn c w st st' s hA hinv h; simp only [isTick, isExt]; grind
+  | react s => have := mu_react c w st st' s hA hinv h; simp only [isTick, isExt]; grind
+  | orchFail s => have := mu_orchFail c w st st' s hA hinv h; simp only [isTick, isExt]; grind
+  | timeoutFire s => have := mu_timeoutFire c w st st' s hA hinv h; simp only [isTick, isExt]; grind
+  | tidyReturn s pick => have := mu_tidyReturn c w st st' s pick hA hinv h; simp only [isTick, isExt]; grind
+  | hStep j => have := mu_hStep c w st st' j hA hinv h; simp only [isTick, isExt]; grind
+  | hEnd j => have := mu_hEnd c w st st' j hA hinv h; simp only [isTick, isExt]; grind
+  | hCancelAck j => have := mu_hCancelAck c w st st' j hA hinv h; simp only [isTick, isExt]; grind
+  | hCancelArrive s => have := mu_hCancelArrive c w st st' s hA hinv h; simp only [isTick, isExt]; grind
+  | sdWaitReturn s pick => have := mu_sdWaitReturn c w st st' s pick hA hinv h; simp only [isTick, isExt]; grind
+  | sdTimeoutFire s => have := mu_sdTimeoutFire c w st st' s hA hinv h; simp only [isTick, isExt]; grind
+  | sdTidyReturn s pick => have := mu_sdTidyReturn c w st st' s pick hA hinv h; simp only [isTick, isExt]; grind
+  | tick d => have := mu0_tick c st st' d h; simp only [isTick, isExt]; grind
+  | extCancel => have := mu0_extCancel c st st' h; simp only [isTick, isExt]; grind
+
+/-- the share of the outside world never increases along a step of layer A, and is spent by `extCancel` -/
+theorem wX_stepA (c : Cfg) (a a' : StA) (e : EvA) (h : stepA c a e = some a') :
+    wX a' + (match e with | .extCancel => 1 | _ => 0) ≤ wX a := by
+  cases e <;> simp only [stepA] at h <;> (repeat' split at h) <;> cases h <;>
+    (try unfold beginRun) <;> (repeat' split) <;> simp only [wX, release, startJobs, setAt] <;> grind
+
+theorem wX_stepB (c : Cfg) (st st' : StB) (e : EvB) (h : stepB c st e = some st') :
+    wX st'.a + (if isExt e = true then 1 else 0) ≤ wX st.a := by
+  by_cases he : e = .extCancel
+  · subst he
+    simp only [stepB] at h
+    split at h
+    · cases h
+    · rename_i a' ha
+      cases h
+      have := wX_stepA c _ _ _ ha
+      simpa [isExt] using this
+  · have hx : isExt e = false := by cases e <;> simp_all [isExt]
+    rcases stepB_refines c st st' e h with heq | ⟨ea, hea⟩
+    · rw [heq, hx]; simp
+    · have := wX_stepA c _ _ ea hea
+      rw [hx]; simp only [Bool.false_eq_true, if_false]; omega
+
 /-- the variant never increases, and decreases at every event other than `tick` -/
 theorem mu_step (c : Cfg) (hwf : c.wf = true) (st st' : StB) (e : EvB)
     (hA : InvA c st.a) (hinv : InvB c st) (h : stepB c st e = some st') :
     mu c st' + (if isTick e = true then 0 else 1) ≤ mu c st := by
-  have w := wf_of c hwf
-  cases e with
-  | runBegin => have := mu_runBegin c w st st' hA hinv h; simp only [isTick]; grind
-  | grant j => have := mu_grant c w st st' j hA hinv h; simp only [isTick]; grind
-  | bodyEnd j ok => have := mu_bodyEnd c w st st' j ok hA hinv h; simp only [isTick]; grind
-  | cancelAck j => have := mu_cancelAck c w st st' j hA hinv h; simp only [isTick]; grind
-  | cancelArrive s => have := mu_cancelArrive c w st st' s hA hinv h; simp only [isTick]; grind
-  | waitReturn s => have := mu_waitReturn c w st st' s hA hinv h; simp only [isTick]; grind
-  | react s => have := mu_react c w st st' s hA hinv h; simp only [isTick]; grind
-  | orchFail s => have := mu_orchFail c w st st' s hA hinv h; simp only [isTick]; grind
-  | timeoutFire s => have := mu_timeoutFire c w st st' s hA hinv h; simp only [isTick]; grind
-  | tidyReturn s pick => have := mu_tidyReturn c w st st' s pick hA hinv h; simp only [isTick]; grind
-  | hStep j => have := mu_hStep c w st st' j hA hinv h; simp only [isTick]; grind
-  | hEnd j => have := mu_hEnd c w st st' j hA hinv h; simp only [isTick]; grind
-  | hCancelAck j => have := mu_hCancelAck c w st st' j hA hinv h; simp only [isTick]; grind
-  | hCancelArrive s => have := mu_hCancelArrive c w st st' s hA hinv h; simp only [isTick]; grind
-  | sdWaitReturn s pick => have := mu_sdWaitReturn c w st st' s pick hA hinv h; simp only [isTick]; grind
-  | sdTimeoutFire s => have := mu_sdTimeoutFire c w st st' s hA hinv h; simp only [isTick]; grind
-  | sdTidyReturn s pick => have := mu_sdTidyReturn c w st st' s pick hA hinv h; simp only [isTick]; grind
-  | tick d => have := mu_tick c st st' d h; simp only [isTick]; grind
+  have h1 := mu0_step c hwf st st' e hA hinv h
+  have h2 := wX_stepB c st st' e h
+  have h3 : ¬ (isTick e = true ∧ isExt e = true) := by cases e <;> simp [isTick, isExt]
+  unfold mu
+  cases ht : isTick e <;> cases hx : isExt e <;> simp_all <;> omega
+
+theorem mu_init (c : Cfg) : mu c StB.init ≤ 16 * c.n + 16 := by
+  have := mu0_init c
+  have : wX StB.init.a ≤ 1 := by unfold wX; split <;> omega
+  unfold mu; omega
 
 theorem work_cons (e : EvB) (es : List EvB) : work (e :: es) = (if isTick e = true then 0 else 1) + work es := by
   unfold work
@@ -609,11 +673,44 @@ theorem work_le_mu (c : Cfg) (hwf : c.wf = true) (evs : List EvB) (st0 st : StB)
 
 /-- C03 (no livelock): every accepted history contains at most `16 * c.n + 16` events other than `tick`
     (each job is started, granted a slot, ended, cancelled, reported, shut down at most once; each scheduler takes
-    a bounded number of turns) -/
+    a bounded number of turns; the outside world cancels the top-level task at most once) -/
 theorem bounded_work (c : Cfg) (hwf : c.wf = true) (evs : List EvB) (st : StB)
     (h : acceptB c StB.init evs = some st) : work evs ≤ 16 * c.n + 16 := by
   have h1 := work_le_mu c hwf evs StB.init st (invA_init c) (invB_init c) h
   have h2 := mu_init c
+  omega
+
+/-! ### the cancellation from outside happens at most once -/
+
+/-- number of `extCancel` events of the history -/
+def extCount (evs : List EvB) : Nat := (evs.filter isExt).length
+
+theorem extCount_cons (e : EvB) (es : List EvB) :
+    extCount (e :: es) = (if isExt e = true then 1 else 0) + extCount es := by
+  unfold extCount
+  cases hx : isExt e <;> simp [List.filter, hx] <;> omega
+
+theorem ext_le_wX (c : Cfg) (evs : List EvB) :
+    ∀ st0 st : StB, acceptB c st0 evs = some st → extCount evs + wX st.a ≤ wX st0.a := by
+  induction evs with
+  | nil => intro st0 st h; simp only [acceptB] at h; cases h; simp [extCount]
+  | cons e es ih =>
+    intro st0 st h
+    simp only [acceptB] at h
+    split at h
+    · rename_i st1 hs
+      have h1 := ih st1 st h
+      have h2 := wX_stepB c st0 st1 e hs
+      rw [extCount_cons]
+      omega
+    · cases h
+
+/-- an accepted history contains at most one `extCancel`: the request stands (`creq 0`) until the top-level run is
+    over, and then the task is finished for good (needs no invariant, no well-formedness) -/
+theorem extCancel_at_most_once (c : Cfg) (evs : List EvB) (st : StB)
+    (h : acceptB c StB.init evs = some st) : extCount evs ≤ 1 := by
+  have h1 := ext_le_wX c evs _ _ h
+  have : wX StB.init.a ≤ 1 := by unfold wX; split <;> omega
   omega
 
 end AJ.Proofs.BoundB
